@@ -27,6 +27,7 @@ RULE = (
     " Half of the delimited files write numbers the short way (%.17g: 2 instead of 2.0)."
     " 30% of the writer cases run a second initialise / append / finalise session on the same writer object."
     " 40% of the remaining writer cases also use the one-shot write() of a mask-selected / re-ordered frame, read back whole and in chunks."
+    " 40% of the DataFrame-buffer cases refill one scratch frame in place for equal-sized batches."
 )
 ASSUMPTIONS = [
     "strings are plain tokens (no NA-like / numeric-looking text: type inference of delimited text is outside the statement)",
@@ -264,8 +265,14 @@ def run_writers(case):
         cuts = sorted(rng.integers(0, n + 1, size=k - 1).tolist())
         pieces = [df.iloc[a:b] for a, b in zip([0] + cuts, cuts + [n])]
         ctx = bool(rng.integers(0, 2))
+        reuse_frame = bool(btype == td.TableType.DataFrame and rng.random() < 0.4)
+        if reuse_frame and n >= 2:
+            # equal-sized batches smaller than the buffer, so that a batch waits in the buffer while the next is prepared
+            m = int(rng.integers(1, max(2, min(n, max(2, buf)) // 2 + 1)))
+            pieces = [df.iloc[a:a + m] for a in range(0, n, m)]
         wsep = str(rng.choice(["\t", "\t", ",", ";"]))
-        extra = dict(suffix=suffix, n=n, buffer=buf, buffer_type=btype.value, appends=[len(p) for p in pieces], ctx=ctx, sep=wsep)
+        extra = dict(suffix=suffix, n=n, buffer=buf, buffer_type=btype.value, appends=[len(p) for p in pieces], ctx=ctx, sep=wsep,
+                     reuse_frame=reuse_frame)
         with core.scratch("c13w") as d:
             path = Path(d) / f"out{suffix}"
 
@@ -286,8 +293,19 @@ def run_writers(case):
                 reuse_list = bool(rng.integers(0, 2))
 
                 def feed():
+                    scratch = None
                     for p in pieces:
-                        if btype == td.TableType.DataFrame:
+                        if btype == td.TableType.DataFrame and reuse_frame:
+                            # a caller that keeps one scratch frame and refills it in place for every batch of the
+                            # same size (what was appended must not change afterwards)
+                            q = p.reset_index(drop=True)
+                            if scratch is None or len(scratch) != len(q):
+                                scratch = q.copy()
+                            else:
+                                for c_ in q.columns:
+                                    scratch[c_] = q[c_].values
+                            w.append_data(scratch)
+                        elif btype == td.TableType.DataFrame:
                             w.append_data(p.reset_index(drop=True))
                         elif btype == td.TableType.Dicts:
                             recs = p.to_dict(orient="records")
